@@ -54,12 +54,13 @@ const (
 func main() { vlib.Run("C37", run) }
 
 func run(c *vlib.Ctx) {
-	c.Rule("one case = one virtual network of 2-6 fully connected testinstance nodes (link latency fixed 0/1/5/20 ms or per-link uniform, provider-search delay 1s/200ms/50ms), 4-24 unique blocks (CIDv0 and CIDv1-raw) placed on 0-3 nodes each (some only after the requests started), 1-7 requests {GetBlocks, session.GetBlocks on shared sessions, GetBlock} with duplicate keys started within 0-30 ms on 1-3 requester nodes, cancellation {never, after k deliveries, immediately, timer}. Strata: complete = no cancellation, only obtainable keys; mix = everything; cancel = every request cancelled; in these three, fetches on one session never share a key (that is the trigger of the known same-session defects); sessshare = two staggered fetches on one session share all keys, nothing cancelled; sesscancel = the same with the first one cancelled. distinct = FNV of the observed history shape (per request: kind, node, keys, distinct keys, deliveries, how it ended); non-trivial = a block was delivered from a remote node and (two requests of one node overlapped in logical time and shared a key, or a request was cancelled after >= 1 delivery)")
+	c.Rule("one case = one virtual network of 2-6 fully connected testinstance nodes (link latency fixed 0/1/5/20 ms or per-link uniform, provider-search delay 1s/200ms/50ms), 4-24 unique blocks (CIDv0 and CIDv1-raw) placed on 0-3 nodes each (some only after the requests started), 1-7 requests {GetBlocks, session.GetBlocks on shared sessions, GetBlock} with duplicate keys started within 0-30 ms on 1-3 requester nodes, cancellation {never, after k deliveries, immediately, timer}. Strata: complete = no cancellation, only obtainable keys; mix = everything; cancel = every request cancelled; in these three, fetches on one session never share a key (that is the trigger of the known same-session defects); sessshare = two staggered fetches on one session share all keys, nothing cancelled; sesscancel = the same with the first one cancelled. longsess = 2-3 nodes with ProviderSearchDelay 300-500 ms (RebroadcastDelay twice that), 1-3 fetches with disjoint keys that nobody holds on 1-2 long-lived sessions, each cancelled by the harness once its wants are on the node's want-list and in a peer's ledger; the sessions stay open and the want-list of the requester and the peers' ledger view (WantlistForPeer) are watched for 10 idle periods. distinct = FNV of the observed history shape (per request: kind, node, keys, distinct keys, deliveries, how it ended); non-trivial = a block was delivered from a remote node and (two requests of one node overlapped in logical time and shared a key, or a request was cancelled after >= 1 delivery); longsess: every fetch was cancelled after its wants had been seen in a peer's ledger and the watch covered >= 3 idle periods")
 	c.Cases("complete", c.N(16, 400), func(k *vlib.Case) { netCase(k, "complete") })
 	c.Cases("mix", c.N(24, 500), func(k *vlib.Case) { netCase(k, "mix") })
 	c.Cases("cancel", c.N(16, 400), func(k *vlib.Case) { netCase(k, "cancel") })
 	c.Cases("sessshare", c.N(4, 80), func(k *vlib.Case) { netCase(k, "sessshare") })
 	c.Cases("sesscancel", c.N(4, 64), func(k *vlib.Case) { netCase(k, "sesscancel") })
+	c.Cases("longsess", c.N(8, 160), longSessCase)
 }
 
 // ---------------------------------------------------------------- script
@@ -86,8 +87,9 @@ type req struct {
 	sess        int
 	keys        []int // block indices, duplicates allowed
 	startMs     int
-	cancelAfter int // cancel after this many deliveries (0 = immediately after the call returned, -1 = no)
-	cancelMs    int // cancel on a timer this many ms after the call (-1 = no)
+	cancelAfter int  // cancel after this many deliveries (0 = immediately after the call returned, -1 = no)
+	cancelMs    int  // cancel on a timer this many ms after the call (-1 = no)
+	whenSent    bool // longsess: the harness cancels once every key is on the want-list and in a peer's ledger
 
 	mu        sync.Mutex // guards everything below
 	got       []recv
@@ -205,17 +207,20 @@ func (t *nodeTracer) received(c cid.Cid) int {
 }
 
 type world struct {
-	peersMu sync.RWMutex
-	peerIdx map[peer.ID]int
-	k       *vlib.Case
-	tracers []*nodeTracer
-	insts   []testinstance.Instance
-	blks    []*blockInfo
-	reqs    []*req
-	sess    map[[2]int]exchange.Fetcher
-	clock   atomic.Int64
-	events  atomic.Int64 // deliveries + closes + cancels: progress fingerprint
-	ctx     context.Context
+	long        bool          // stratum longsess
+	psd         time.Duration // provider search delay of the nodes
+	watchedIdle int           // idle periods covered by the stay-clean watch
+	peersMu     sync.RWMutex
+	peerIdx     map[peer.ID]int
+	k           *vlib.Case
+	tracers     []*nodeTracer
+	insts       []testinstance.Instance
+	blks        []*blockInfo
+	reqs        []*req
+	sess        map[[2]int]exchange.Fetcher
+	clock       atomic.Int64
+	events      atomic.Int64 // deliveries + closes + cancels: progress fingerprint
+	ctx         context.Context
 }
 
 func mkBlock(r *vlib.Rand, caseID string, i int) blocks.Block {
@@ -429,6 +434,48 @@ func (w *world) avoidSharedSessionKeys(r *vlib.Rand, q *req) {
 	}
 }
 
+// longSessCase: long-lived sessions, keys nobody holds, cancellation after the
+// wants went out, session kept open and watched over several idle periods.
+func longSessCase(k *vlib.Case) {
+	r := k.R
+	n := r.Range(2, 3)
+	latName := vlib.Pick(r, []string{"fixed0", "fixed1ms", "fixed5ms"})
+	d := map[string]delay.D{"fixed0": delay.Fixed(0), "fixed1ms": delay.Fixed(time.Millisecond), "fixed5ms": delay.Fixed(5 * time.Millisecond)}[latName]
+	psd := vlib.Pick(r, []time.Duration{300 * time.Millisecond, 400 * time.Millisecond, 500 * time.Millisecond})
+	k.Logf("config nodes=%d latency=%s providerSearchDelay=%s rebroadcastDelay=%s stratum=longsess", n, latName, psd, 2*psd)
+	w := &world{k: k, sess: map[[2]int]exchange.Fetcher{}, long: true}
+	ctx, cancelAll := context.WithCancel(context.Background())
+	defer cancelAll()
+	w.ctx = ctx
+	nb := r.Range(3, 8)
+	for i := 0; i < nb; i++ {
+		bi := &blockInfo{blk: mkBlock(r, k.ID, i), name: fmt.Sprintf("b%d", i), late: -1}
+		w.blks = append(w.blks, bi)
+		k.Logf("block %s %s held by nobody", bi.name, bi.blk.Cid())
+	}
+	nr := r.Range(1, min(3, nb))
+	perm := r.Perm(nb)
+	for i := 0; i < nr; i++ {
+		q := &req{id: i, node: 0, kind: "session", sess: r.Intn(2), cancelAfter: -1, cancelMs: -1, whenSent: true, startMs: vlib.Pick(r, []int{0, 0, 1, 3})}
+		// disjoint key sets: request i takes perm[i], perm[i+nr], ...
+		for j := i; j < nb; j += nr {
+			q.keys = append(q.keys, perm[j])
+			if r.Chance(1, 6) {
+				q.keys = append(q.keys, perm[j]) // duplicate key in the list
+			}
+		}
+		w.reqs = append(w.reqs, q)
+		var ks []string
+		for _, x := range q.keys {
+			ks = append(ks, w.blks[x].name)
+		}
+		k.Logf("request r%d node=0 kind=session sess=%d start=%dms cancel=when-all-wants-are-in-a-peer-ledger keys=[%s]", q.id, q.sess, q.startMs, strings.Join(ks, " "))
+	}
+	if !vlib.Guard(k, "network-case", caseWatchdog, func() { w.execute(n, d, psd) }) {
+		cancelAll()
+	}
+}
+
 // available reports whether a node other than the requester holds (or will
 // hold) the block.
 func (w *world) available(q *req, bi int) bool {
@@ -462,7 +509,7 @@ func (w *world) execute(n int, d delay.D, psd time.Duration) {
 		w.tracers = append(w.tracers, tr)
 		w.peersMu.Unlock()
 		w.insts = append(w.insts, testinstance.NewInstance(nodesCtx, vnet, router.Client(id), id, nil,
-			[]bitswap.Option{bitswap.ProviderSearchDelay(psd), bitswap.WithTracer(tr)}))
+			w.nodeOptions(psd, tr)))
 	}
 	testinstance.ConnectInstances(w.insts)
 	defer func() {
@@ -528,10 +575,139 @@ func (w *world) execute(n int, d delay.D, psd time.Duration) {
 	w.monitorRequests()
 	wg.Wait()
 	w.checkSafetyAndDelivery()
-	reported := w.checkCleanup("sessions-open", nil, closeSessions)
+	var seen map[string]bool
+	if w.long {
+		seen = w.watchStaysClean()
+	}
+	reported := w.checkCleanup("sessions-open", seen, closeSessions)
 	closeSessions()
 	w.checkCleanup("sessions-closed", reported, nil)
 	w.finishEvidence()
+}
+
+func (w *world) nodeOptions(psd time.Duration, tr *nodeTracer) []bitswap.Option {
+	w.psd = psd
+	o := []bitswap.Option{bitswap.ProviderSearchDelay(psd), bitswap.WithTracer(tr)}
+	if w.long {
+		o = append(o, bitswap.RebroadcastDelay(2*psd))
+	}
+	return o
+}
+
+// peerViews returns, for requester node, the CIDs any other node's ledger
+// lists as wanted by it.
+func (w *world) peerViews(node int) map[string]bool {
+	out := map[string]bool{}
+	id := w.insts[node].Identity.ID()
+	for i, in := range w.insts {
+		if i == node {
+			continue
+		}
+		for _, c := range in.Exchange.WantlistForPeer(id) {
+			out[c.KeyString()] = true
+		}
+	}
+	return out
+}
+
+// allWantsOut: every key of q is on its node's want-list and in some peer's ledger.
+func (w *world) allWantsOut(q *req) bool {
+	local := map[string]bool{}
+	for _, c := range w.insts[q.node].Exchange.GetWantlist() {
+		local[c.KeyString()] = true
+	}
+	remote := w.peerViews(q.node)
+	for _, x := range q.keys {
+		ks := w.blks[x].blk.Cid().KeyString()
+		if !local[ks] || !remote[ks] {
+			return false
+		}
+	}
+	return true
+}
+
+// watchStaysClean (stratum longsess): every fetch is cancelled and closed, the
+// sessions are still open. For each cancelled key: once it has been absent
+// from the requester's want-list AND from every peer's ledger for >= 5
+// consecutive samples spanning >= 50 ms it must not come back while the
+// session idles (watched for 10 provider-search periods: the idle tick fires
+// after 1, then 2 more, then 3 more periods). A reappearance is decided on
+// first observation; keys that never get clean are left to checkCleanup.
+func (w *world) watchStaysClean() map[string]bool {
+	type st struct {
+		node       int
+		c          cid.Cid
+		cleanN     int
+		cleanSince time.Time
+		wasClean   bool
+		reported   bool
+	}
+	var keys []*st
+	dup := map[string]bool{}
+	for _, q := range w.reqs {
+		if !q.snap().cancelled {
+			continue
+		}
+		got := q.distinctGot()
+		for _, x := range q.keys {
+			c := w.blks[x].blk.Cid()
+			kk := fmt.Sprint(q.node, "/", c.KeyString())
+			if !got[c.KeyString()] && !dup[kk] {
+				dup[kk] = true
+				keys = append(keys, &st{node: q.node, c: c})
+			}
+		}
+	}
+	out := map[string]bool{}
+	start := time.Now()
+	total := 10 * w.psd
+	samples := 0
+	for time.Since(start) < total {
+		samples++
+		local := map[int]map[string]bool{}
+		remote := map[int]map[string]bool{}
+		for _, s := range keys {
+			if local[s.node] == nil {
+				local[s.node] = map[string]bool{}
+				for _, c := range w.insts[s.node].Exchange.GetWantlist() {
+					local[s.node][c.KeyString()] = true
+				}
+				remote[s.node] = w.peerViews(s.node)
+			}
+			ks := s.c.KeyString()
+			inLocal, inRemote := local[s.node][ks], remote[s.node][ks]
+			if !inLocal && !inRemote {
+				if s.cleanN == 0 {
+					s.cleanSince = time.Now()
+				}
+				s.cleanN++
+				if s.cleanN >= 5 && time.Since(s.cleanSince) >= 50*time.Millisecond {
+					s.wasClean = true
+				}
+				continue
+			}
+			if s.wasClean && !s.reported {
+				s.reported = true
+				out[fmt.Sprint(s.node, "/", ks)] = true
+				nWant, nCancel := w.tracers[s.node].wire(s.c)
+				w.k.Fail("want-not-cleared/reappears-after-cancel", "after its context is cancelled a request's CIDs stay off the requester's want-list while the session lives on",
+					fmt.Sprintf("%s absent from node %d's want-list and from its peers' ledgers for the whole watch (%s = 10 provider-search periods)", w.nameOf(s.c), s.node, total),
+					fmt.Sprintf("%s was clean for %d consecutive samples, then came back %s after the requests ended: on the local want-list=%v, in a peer's ledger=%v (peers saw %d want / %d cancel entries for it); no request of the node wants it; want-list=%s",
+						w.nameOf(s.c), s.cleanN, time.Since(start).Round(time.Millisecond), inLocal, inRemote, nWant, nCancel, w.namesOf(w.insts[s.node].Exchange.GetWantlist())))
+			}
+			s.cleanN = 0
+		}
+		time.Sleep(sampleEvery)
+	}
+	w.watchedIdle = 3 // ticks at 1, 3 and 6 periods lie inside the 10-period watch
+	w.k.C.Count("longsess_watch_samples", int64(samples))
+	w.k.C.Count("longsess_keys_watched", int64(len(keys)))
+	for _, s := range keys {
+		if s.wasClean {
+			w.k.C.Count("longsess_keys_seen_clean_then_watched", 1)
+		}
+	}
+	return out
 }
 
 func (w *world) runReq(q *req) {
@@ -641,6 +817,12 @@ func (w *world) monitorRequests() {
 			}
 			open++
 			if st.cancelled || st.tStart == 0 {
+				continue
+			}
+			if q.whenSent {
+				if w.allWantsOut(q) {
+					q.doCancel(w, "harness:when-sent")
+				}
 				continue
 			}
 			// can it still complete by itself?
@@ -1148,5 +1330,14 @@ func (w *world) finishEvidence() {
 	}
 	if remote && (overlapShared || cancelledAfterDelivery) {
 		k.Nontrivial()
+	}
+	if w.long && w.watchedIdle >= 3 {
+		all := len(w.reqs) > 0
+		for _, st := range sts {
+			all = all && st.cancelled && st.cancelHow == "harness:when-sent"
+		}
+		if all {
+			k.Nontrivial()
+		}
 	}
 }
